@@ -89,6 +89,9 @@ class PW:
 def vkey(v):
     if isinstance(v, (Rat, Vec, Obj, PW, G)):
         return v.key
+    from .seqdom import Gen
+    if isinstance(v, Gen):
+        return v.key
     return ("py", repr(v))
 
 
@@ -201,6 +204,12 @@ class Evaluator:
         # opaque dependency calls that return a scalar although their arguments are arrays
         self.scalar_deps = {"dep:uts.thresholding.isodata"}
         self.bool_registry: Dict[str, G] = {}        # boolean masks that were turned into opaque index atoms
+        self.summarise_loops = False                 # exact loop summaries (seqdom) instead of havoc where possible
+        self.gen_depth = 0
+        self.summary_log: List[Tuple[int, str]] = []
+        self.summary_assumptions: set = set()
+        self.gen_registry: Dict[str, Any] = {}
+        self.vec_registry: Dict[str, Any] = {}
         self.in_registry: Dict[Any, Any] = {}        # key of an `x in c` atom -> (x value, c value)
         self.comp_registry: Dict[str, Any] = {}      # all(...)/any(...) over a generator: (kind, iter value, element symbol, element guard)
 
@@ -318,7 +327,16 @@ class Evaluator:
         if isinstance(v, Obj):
             return anf.opaque("obj", extra=repr(v.key))
         if isinstance(v, Vec):
-            return anf.opaque("vec", *[self.to_rat(i) for i in v.items])
+            r = anf.opaque("vec", *[self.to_rat(i) for i in v.items])
+            if self.summarise_loops:
+                self.vec_registry[r.atoms()[0].skey] = v
+            return r
+        from .seqdom import Gen
+        if isinstance(v, Gen):
+            import hashlib
+            r = anf.opaque("gen", extra="g" + hashlib.sha1(repr(v.key).encode()).hexdigest()[:20], array=True)
+            self.gen_registry[r.atoms()[0].skey] = v
+            return r
         if isinstance(v, PW):
             raise Unsupported("piecewise value where a plain value is required")
         raise Unsupported(f"cannot coerce {type(v).__name__}")
@@ -553,6 +571,18 @@ class Frame:
             b = env_f.get(n, Obj("undefined"))
             if veq(a, b):
                 out[n] = a
+            elif self.ev.summarise_loops and isinstance(a, Vec) and isinstance(b, Vec) and a.kind == "list" and b.kind == "list":
+                # lists that grew differently in the two branches: common prefix + conditional blocks
+                from .seqdom import Gen, flatten
+                k = 0
+                while k < len(a.items) and k < len(b.items) and vkey(a.items[k]) == vkey(b.items[k]):
+                    k += 1
+                items = list(a.items[:k])
+                if len(a.items) > k:
+                    items.append(Gen(self.ev.gen_depth, None, None, None, [(c, Vec(a.items[k:], "list"), True)], ranged=False))
+                if len(b.items) > k:
+                    items.append(Gen(self.ev.gen_depth, None, None, None, [(g_not(c), Vec(b.items[k:], "list"), True)], ranged=False))
+                out[n] = Vec(flatten(items), "list")
             else:
                 out[n] = mk_pw([(c, a), (g_not(c), b)])
         env.clear()
@@ -561,10 +591,17 @@ class Frame:
     def loop(self, st, env, guard: G) -> G:
         """Havoc: every name assigned in the loop gets a fresh symbol; the body is
         evaluated once so that its events are recorded (flagged in_loop)."""
+        if self.ev.summarise_loops and isinstance(st, ast.For) and self.havoc_depth == 0:
+            from .seqdom import summarise_for
+            if summarise_for(self, st, env, guard):
+                return guard
         assigned = set()
         for n in ast.walk(st):
             if isinstance(n, ast.Name) and isinstance(n.ctx, ast.Store):
                 assigned.add(n.id)
+            elif self.ev.summarise_loops and isinstance(n, ast.Call) and isinstance(n.func, ast.Attribute) and isinstance(n.func.value, ast.Name) \
+                    and n.func.attr in ("append", "extend", "insert", "remove", "sort", "reverse", "clear", "pop", "add", "update") and n.func.value.id in env:
+                assigned.add(n.func.value.id)       # a container mutated in the loop is unknown afterwards
         if isinstance(st, ast.For):
             self.expr(st.iter, env, guard=guard)
         pre = dict(env)
@@ -779,6 +816,12 @@ class Frame:
             return Obj("str", "<fstring>")
         if isinstance(e, ast.Lambda):
             return Obj("lambda", norm_text(e))
+        if isinstance(e, (ast.ListComp, ast.GeneratorExp)) and self.ev.summarise_loops and self.havoc_depth == 0:
+            from .seqdom import comprehension, NoSummary
+            try:
+                return comprehension(self, e, env)
+            except NoSummary as ex:
+                self.ev.summary_log.append((getattr(e, "lineno", 0), str(ex)))
         if isinstance(e, (ast.ListComp, ast.GeneratorExp, ast.SetComp, ast.DictComp)):
             return anf.opaque("comp", extra=norm_text(e))
         if isinstance(e, ast.Dict):
